@@ -1144,6 +1144,42 @@ pub(crate) fn h_ifdata_empty_sequence() {
     vrt_observe_bool(r.is_ok());
 }
 
+/// uninterpreted IF_DATA (no A2ML definition): arbitrary lexeme soups inside the block, including comments, an embedded
+/// `/begin A2ML` section whose raw text is a single quote, unbalanced /begin and /end and the end of input.
+/// Loading must return (Ok or Err): no panic, no hang.
+fn ifdata_soup(n: usize) {
+    let mut t = String::from("ASAP2_VERSION 1 71\n/begin PROJECT p \"\"\n/begin MODULE m \"\"\n/begin IF_DATA X ");
+    for _ in 0..n {
+        match vrt_choice(10) {
+            0 => t.push_str("/begin B "),
+            1 => t.push_str("/end B "),
+            2 => t.push_str("id "),
+            3 => t.push_str("0x1F "),
+            4 => t.push_str("\"s\" "),
+            5 => t.push_str("/* c */ "),
+            6 => t.push_str("// c\n"),
+            7 => t.push_str("/begin A2ML\"/end A2ML "),
+            8 => t.push_str("/begin A2ML x y /end A2ML "),
+            _ => t.push_str("\"\" "),
+        }
+    }
+    let closed = vrt_choice(2) == 0;
+    if closed {
+        t.push_str("/end IF_DATA\n/end MODULE\n/end PROJECT");
+    }
+    let strict = vrt_choice(2) == 1;
+    let r = load_from_string(&t, None, strict);
+    if let Ok((file, _)) = &r {
+        // whatever was accepted can be written and loaded again
+        let out = file.write_to_string();
+        vrt_check(load_from_string(&out, None, false).is_ok(), "C03 text written from an accepted uninterpreted IF_DATA loads again");
+    }
+    vrt_observe_bool(r.is_ok());
+}
+pub(crate) fn h_ifdata_soup_1() { ifdata_soup(1); }
+pub(crate) fn h_ifdata_soup_2() { ifdata_soup(2); }
+pub(crate) fn h_ifdata_soup_3() { ifdata_soup(3); }
+
 // ------------------------------------------------------------------ C07 (whole pipeline): unknown elements inside real blocks
 
 /// (block text up to the insertion point list) : documents with numbered insertion points `@k`
